@@ -305,6 +305,46 @@ def sample_wellformed(ctx, chk):
         chk.unknown("R11.1", "only %d return paths of Scores.bootstrap_sample analysed" % nret)
 
 
+def dynamic_method(ctx, chk, rule="R11.6", classes=None):
+    """Resolution of sampling_method="dynamic": replacement iff a class has fewer than 100 hard scores (or smoothing / by_group forces it)."""
+    ev = ctx.ev
+    # ---------------- R11.6 dynamic method resolution
+    for cls in (classes or (SCORES, GROUP)):
+        for smoothing, strat in ((False, None), (True, None), (False, "by_group")):
+            cfg_kw = dict(sampling_method="dynamic", stratified=strat, smoothing=smoothing)
+            outs = ctx.explore(lambda: ev.call(ctx.method(ctx.scores_obj("pos", "pos", cls), "_sampling_method"), [make_config(ctx, **cfg_kw)], {}), chk)
+            small = disj([compare("<", HP, Const(100)), compare("<", HN, Const(100))])
+            q = cls + "._sampling_method"
+            inst = "%s:smoothing=%s,strat=%s" % (cls.split(".")[-1], smoothing, strat)
+            vals = {}
+            for o in returns(outs):
+                vals.setdefault(show(o.value), []).append(o)
+            force_repl = (smoothing and cls == SCORES) or (strat == "by_group" and cls == GROUP)
+            if force_repl:
+                if set(vals) == {"'replacement'"}:
+                    chk.hold(rule, inst, "dynamic -> replacement")
+                else:
+                    chk.violation(rule, q, inst, sorted(vals), "'replacement' (smoothing / by_group forces replacement sampling)", ctx.where(q))
+            else:
+                rp = vals.get("'replacement'", [])
+                sp = vals.get("'single_pass'", [])
+                # truth table over the two size atoms: on every assignment exactly the paths with the expected value are enabled
+                # (the shape of the branching - one test, nested tests, early returns, De Morgan forms - is free)
+                ok = bool(rp) and bool(sp)
+                for va in (True, False):
+                    for vb in (True, False):
+                        asg = {small.args[0]: va, small.args[1]: vb} if isinstance(small, App) and small.fn == "or" else {}
+                        en = {k: [_bool_eval(_pc_formula(o), asg) for o in v] for k, v in vals.items()}
+                        want = "'replacement'" if (va or vb) else "'single_pass'"
+                        for k, flags in en.items():
+                            if any(f is None for f in flags) or (k == want) != any(flags) or (k != want and any(flags)):
+                                ok = False
+                if ok:
+                    chk.hold(rule, inst, "replacement iff len(pos) < 100 or len(neg) < 100, else single pass")
+                else:
+                    chk.violation(rule, q, inst, {k: [pc_text(o)[:120] for o in v] for k, v in vals.items()}, "replacement iff %s" % show(small, 120), ctx.where(q))
+
+
 def _pc_formula(o):
     from ..terms import conj, negate
     return conj([c if t else negate(c) for c, t in o.pc])
@@ -373,41 +413,7 @@ def run(ctx, chk, tier):
             chk.hold("R11.4", q.split(".")[-2] + "." + q.split(".")[-1], "%d pos/neg statement pairs are exact mirror images" % n, nontrivial=n > 0)
     if total_pairs < 3:
         chk.unknown("R11.4", "only %d mirrored statement pairs found (floor 3)" % total_pairs)
-    # ---------------- R11.6 dynamic method resolution
-    for cls in (SCORES, GROUP):
-        for smoothing, strat in ((False, None), (True, None), (False, "by_group")):
-            cfg_kw = dict(sampling_method="dynamic", stratified=strat, smoothing=smoothing)
-            outs = ctx.explore(lambda: ev.call(ctx.method(ctx.scores_obj("pos", "pos", cls), "_sampling_method"), [make_config(ctx, **cfg_kw)], {}), chk)
-            small = disj([compare("<", HP, Const(100)), compare("<", HN, Const(100))])
-            q = cls + "._sampling_method"
-            inst = "%s:smoothing=%s,strat=%s" % (cls.split(".")[-1], smoothing, strat)
-            vals = {}
-            for o in returns(outs):
-                vals.setdefault(show(o.value), []).append(o)
-            force_repl = (smoothing and cls == SCORES) or (strat == "by_group" and cls == GROUP)
-            if force_repl:
-                if set(vals) == {"'replacement'"}:
-                    chk.hold("R11.6", inst, "dynamic -> replacement")
-                else:
-                    chk.violation("R11.6", q, inst, sorted(vals), "'replacement' (smoothing / by_group forces replacement sampling)", ctx.where(q))
-            else:
-                rp = vals.get("'replacement'", [])
-                sp = vals.get("'single_pass'", [])
-                # truth table over the two size atoms: on every assignment exactly the paths with the expected value are enabled
-                # (the shape of the branching - one test, nested tests, early returns, De Morgan forms - is free)
-                ok = bool(rp) and bool(sp)
-                for va in (True, False):
-                    for vb in (True, False):
-                        asg = {small.args[0]: va, small.args[1]: vb} if isinstance(small, App) and small.fn == "or" else {}
-                        en = {k: [_bool_eval(_pc_formula(o), asg) for o in v] for k, v in vals.items()}
-                        want = "'replacement'" if (va or vb) else "'single_pass'"
-                        for k, flags in en.items():
-                            if any(f is None for f in flags) or (k == want) != any(flags) or (k != want and any(flags)):
-                                ok = False
-                if ok:
-                    chk.hold("R11.6", inst, "replacement iff len(pos) < 100 or len(neg) < 100, else single pass")
-                else:
-                    chk.violation("R11.6", q, inst, {k: [pc_text(o)[:120] for o in v] for k, v in vals.items()}, "replacement iff %s" % show(small, 120), ctx.where(q))
+    dynamic_method(ctx, chk)
     chk.floor("R11.6", 6, "2 classes x 3 configurations")
     dispatch(ctx, chk)
 
